@@ -1,0 +1,82 @@
+//go:build verif
+
+/*
+ * Copyright 2022 CloudWeGo Authors
+ *
+ * Licensed under the Apache License, Version 2.0 (the "License");
+ * you may not use this file except in compliance with the License.
+ * You may obtain a copy of the License at
+ *
+ *     http://www.apache.org/licenses/LICENSE-2.0
+ *
+ * Unless required by applicable law or agreed to in writing, software
+ * distributed under the License is distributed on an "AS IS" BASIS,
+ * WITHOUT WARRANTIES OR CONDITIONS OF ANY KIND, either express or implied.
+ * See the License for the specific language governing permissions and
+ * limitations under the License.
+ */
+
+package http1
+
+import (
+	"unsafe"
+
+	"github.com/cloudwego/hertz/pkg/network"
+)
+
+// Verification hooks of the client connection pool (conformance harness in /verif, property C10).
+// Only built with the "verif" tag; without it vhook/vhookL/vgate are empty and inlined away (verif_off.go).
+//
+// VerifHook receives one event per critical section or blocking step of client.go:
+//
+//	args = [host client, connection, waiter, connsCount, len(conns), connsWait.len()]
+//
+// The last three are -1 for events emitted outside connsLock. Events emitted with vhookL are emitted while the
+// caller holds connsLock, after the state change. "want.deliver" and "want.cancel" are emitted while holding
+// w.mu, BEFORE the state change and before close(w.ready): wantConn.waiting() reads the channel without w.mu, so
+// an event logged before the close is ordered before every observation of the closed channel.
+var VerifHook func(ev string, args ...int64)
+
+// VerifConnID maps a dialed connection to the harness' own connection number (pointer value if unset).
+var VerifConnID func(c network.Conn) int64
+
+// VerifGate is called before every Lock() and blocking step with the label of the step that follows. A test may
+// install a scheduler that blocks here (seeded yields, schedule replay).
+var VerifGate func(label string)
+
+func vconn(cc *clientConn) int64 {
+	if cc == nil || cc.c == nil {
+		return 0
+	}
+	if f := VerifConnID; f != nil {
+		return f(cc.c)
+	}
+	return int64(uintptr(unsafe.Pointer(cc)))
+}
+
+func vhook(ev string, c *HostClient, cc *clientConn, w *wantConn) {
+	if h := VerifHook; h != nil {
+		h(ev, int64(uintptr(unsafe.Pointer(c))), vconn(cc), int64(uintptr(unsafe.Pointer(w))), -1, -1, -1)
+	}
+}
+
+// vhookL: the caller holds c.connsLock.
+func vhookL(ev string, c *HostClient, cc *clientConn, w *wantConn) {
+	if h := VerifHook; h != nil {
+		wl := 0
+		if c.connsWait != nil {
+			wl = c.connsWait.len()
+		}
+		h(ev, int64(uintptr(unsafe.Pointer(c))), vconn(cc), int64(uintptr(unsafe.Pointer(w))),
+			int64(c.connsCount), int64(len(c.conns)), int64(wl))
+	}
+}
+
+func vgate(label string) {
+	if g := VerifGate; g != nil {
+		g(label)
+	}
+}
+
+// VerifHostID returns the value VerifHook receives as first argument for events of c.
+func VerifHostID(c *HostClient) int64 { return int64(uintptr(unsafe.Pointer(c))) }
